@@ -11,6 +11,7 @@ CONSTANTS
   Rejected <- MCRejected
   Unresolvable <- MCUnresolvable
   Keyed = ${Keyed}
+  Batch = ${Batch}
 SPECIFICATION SpecE
 VIEW View
 ${EMIT}
